@@ -317,6 +317,9 @@ def run(ctx):
     # every formatter function against its reviewed emission skeleton
     import emit as _emit
     _emit.rule_F_SKELETON_ALL(ctx)
+    # the kind of the value read back (task / sentence / term) is decided by slot presence alone, identically in both parsers (seed c11-h)
+    import c15 as _c15
+    _c15.rule_K_KIND(ctx)
     ctx.undecided = ["that the reference grammar derives the same tree as the lexical parser for every output (equivalence of two parsers over all strings)",
                      "PEG ordered-choice subtleties (e.g. the statement alternative tried before compound) are not modelled"]
     ctx.assumptions = ["unicodedata general categories P*/S* = pest's PUNCTUATION|SYMBOL", "the frozen reference lexicon was transcribed correctly from the OpenNARS wiki grammar"]
